@@ -152,7 +152,6 @@ def run(ctx):
     ctx.assumptions = [
         "sort.Sort, strconv.ParseUint, fmt %X, strings.Split are modelled from their documentation (DESIGN section 6) and compared on every case",
         "archive sizes >= 1 (an archive of size 0 encodes to \"\" which Decode rejects: stated as C09_size0_not_roundtrip); sizes below 2^53 (archiveSize goes through float64)",
-        "a Decode that is rejected after it has overwritten some words leaves the memo un-reset: modelled and compared, stated as "
-        "C09_memo_stale_after_rejected_decode, outside the property's quantifier (crem never re-encodes such an archive)",
+        "Decode as repaired by fix C09-1 (parse all entries, then store): on a tree without that fix the check alarms",
         "decision-variable values are a function of the active set: property C01 (the corollary here is stated over an abstract valuation)",
     ]
